@@ -595,7 +595,7 @@ class Engine:
             return ob
         t0 = time.time()
         s = z3.Solver()
-        s.set("timeout", self.timeout_ms)
+        s.set("timeout", self.timeout_ms if ob.kind != "canary" else 1500)
         s.add(*ob.assumptions)
         s.add(z3.Not(ob.goal))
         s.add(*self.unfold_axioms(list(ob.assumptions) + [ob.goal] + list(ob.hints)))
@@ -612,7 +612,8 @@ class Engine:
         else:
             ob.verdict = "unknown"
             ob.detail = s.reason_unknown()
-            self.try_cvc5(ob, s)
+            if ob.kind != "canary":
+                self.try_cvc5(ob, s)
         ob.ms = int((time.time() - t0) * 1000)
         return ob
 
